@@ -80,10 +80,13 @@ def run_schedule(scn, schedule):
     reqs = [ops.op_http(op) for op in scn.requests]
     if getattr(scn, 'fault', None):
         sched.FAULT.update(tid=scn.fault[0], match=scn.fault[1], left=scn.fault[2])
+    if getattr(scn, 'crash', None):
+        sched.FAULT.update(tid=scn.crash[0], crash_at=scn.crash[1], seen=0)
     try:
         res, trace, used = sched.run_concurrent(app, reqs, schedule)
     finally:
-        sched.FAULT.update(tid=None, match='', left=0)
+        scn.statements_seen = sched.FAULT.get('seen', 0)
+        sched.FAULT.update(tid=None, match='', left=0, crash_at=None, seen=0)
     dump = ops.canon_dump(app.raw_dump())
     obs = []
     for op, r in zip(scn.requests, res):
